@@ -372,6 +372,23 @@ func loadKnown(id string) map[string]knownFinding {
 	return m
 }
 
+var knownCache map[string]map[string]knownFinding
+
+// KnownOpen reports whether key is an open known finding of property id, so
+// that a search can record it and keep exploring instead of stopping at it.
+func KnownOpen(id, key string) bool {
+	if knownCache == nil {
+		knownCache = map[string]map[string]knownFinding{}
+	}
+	m, ok := knownCache[id]
+	if !ok {
+		m = loadKnown(id)
+		knownCache[id] = m
+	}
+	_, hit := m[key]
+	return hit
+}
+
 type shardResult struct {
 	rec   *Rec
 	death string // non-empty: worker died; text = stderr tail
